@@ -357,7 +357,18 @@ fn instance(max_ops: usize) -> BoxedStrategy<Instance> {
         .prop_flat_map(move |ty| {
             let info = ty.info();
             if ty == Ty::Jitter {
-                (gens::jitter_spec(false), gens::ops(&info, max_ops.min(6), 24, false)).prop_map(|(spec, ops)| Instance { spec, ops }).boxed()
+                (gens::jitter_spec(false), gens::ops(&info, max_ops.min(6), 24, false), proptest::bool::weighted(0.3))
+                    .prop_map(|(mut spec, mut ops, default_rounds)| {
+                        if default_rounds {
+                            // rely on the round count new_with_timer starts with
+                            if let GenSpec::Jitter { rounds, .. } = &mut spec {
+                                *rounds = 0;
+                            }
+                            ops.truncate(3);
+                        }
+                        Instance { spec, ops }
+                    })
+                    .boxed()
             } else {
                 (gens::det_spec(ty, true), gens::ops(&info, max_ops, 300, true)).prop_map(|(spec, ops)| Instance { spec, ops }).boxed()
             }
@@ -428,6 +439,10 @@ pub fn def(ctx: &Ctx) -> PropDef {
     let mut subs: Vec<Box<dyn SubCheck>> = vec![Box::new(StaticProbe)];
     // the dynamic scenarios move generators between threads: only sound if the probe compiles
     let probe_ok = matches!(run_probe(ctx), Ok(Ok(())));
+    // a real-clock JitterRng::new() early in this long-lived process: whatever it caches
+    // process-wide must not influence scripted-timer instances (the fresh child processes of the
+    // fresh-process mode have never called it)
+    let _ = crate::engine::catch(|| rand_jitter::JitterRng::new().map(|_| ()));
     if probe_ok {
         for part in 0..8 {
             subs.push(PSub::boxed(
@@ -489,7 +504,7 @@ pub fn def(ctx: &Ctx) -> PropDef {
     }
     PropDef {
         id: "C19",
-        rule: "scenario = up to 6 generator instances (types drawn from the 19 deterministic types + scripted JitterRng, with deliberate repeats: identical twins, same seed with another history, same type with another seed; zero seeds; construction is part of the history and happens on the scheduled thread) + a generated schedule of (instance, worker thread) pairs over 1..4 real OS threads: a coordinator hands the boxed generator and one operation to the scheduled worker and gets both back, so exactly one operation runs at a time and the interleaving, including migrations between threads, is the generated one. Oracle: every instance's trace equals its solo replay in a fresh thread, executed both before and after the interleaved run. Free-running mode: instances partitioned over 2..8 unsynchronised threads, repeated. Fresh-process mode: the traces of instances created and advanced round-robin inside the long-lived checker process (where thousands of other generators were created before) must equal the traces each instance produces alone in a freshly spawned child process, so process-wide lazily initialised state cannot hide. Seed-pair enumeration: for one base seed per type and run, every seed that differs from it in exactly one or two bits (32 896 pairs for 32-byte seeds) is constructed right after the base seed\u{2019}s generator and must equal the same generator constructed after an unrelated one. Static part: a probe crate asserting Send + Sync for every type is compiled against the current tree. Non-trivial = >= 2 instances of the same type advanced alternately and >= 1 thread migration; distinct by hash of the scenario.".into(),
+        rule: "scenario = up to 6 generator instances (types drawn from the 19 deterministic types + scripted JitterRng, with deliberate repeats: identical twins, same seed with another history, same type with another seed; zero seeds; scripted JitterRng also with the round count new_with_timer starts with, after a real-clock JitterRng::new() earlier in the checker process; construction is part of the history and happens on the scheduled thread) + a generated schedule of (instance, worker thread) pairs over 1..4 real OS threads: a coordinator hands the boxed generator and one operation to the scheduled worker and gets both back, so exactly one operation runs at a time and the interleaving, including migrations between threads, is the generated one. Oracle: every instance's trace equals its solo replay in a fresh thread, executed both before and after the interleaved run. Free-running mode: instances partitioned over 2..8 unsynchronised threads, repeated. Fresh-process mode: the traces of instances created and advanced round-robin inside the long-lived checker process (where thousands of other generators were created before) must equal the traces each instance produces alone in a freshly spawned child process, so process-wide lazily initialised state cannot hide. Seed-pair enumeration: for one base seed per type and run, every seed that differs from it in exactly one or two bits (32 896 pairs for 32-byte seeds) is constructed right after the base seed\u{2019}s generator and must equal the same generator constructed after an unrelated one. Static part: a probe crate asserting Send + Sync for every type is compiled against the current tree. Non-trivial = >= 2 instances of the same type advanced alternately and >= 1 thread migration; distinct by hash of the scenario.".into(),
         explanation: None,
         assumptions: vec![
             "interleavings inside one operation are not enumerated (the crates contain no synchronisation primitives to instrument)".into(),
